@@ -119,11 +119,16 @@ Lemma opt_step_5 o ob : opt_step o 5 ob =
 Proof. reflexivity. Qed.
 Lemma opt_step_3 o ob : opt_step o 3 ob = (p <- pi_unmarshal ob ;; Ok (add_prefix o p))%res.
 Proof. reflexivity. Qed.
-Lemma opt_step_24 o ob : opt_step o 24 ob = ('(r, _) <- ri_unmarshal (o_ri o) ob ;; Ok (set_ri o r))%res.
+Lemma opt_step_24 o ob : opt_step o 24 ob =
+  ('(r, ok) <- ri_unmarshal (o_ri o) ob ;; Ok (if ok then add_route (set_ri o r) r else set_ri o r))%res.
 Proof. reflexivity. Qed.
-Lemma opt_step_25 o ob : opt_step o 25 ob = ('(r, _) <- rd_unmarshal (o_rdnss o) ob ;; Ok (set_rdnss o r))%res.
+Lemma opt_step_25 o ob : opt_step o 25 ob =
+  ('(r, ok) <- rd_unmarshal (o_rdnss o) ob ;;
+   Ok (if ok then add_rdnss (set_rdnss o r) (mkRD (rd_life r) (skipn (List.length (rd_servers (o_rdnss o))) (rd_servers r)))
+       else set_rdnss o r))%res.
 Proof. reflexivity. Qed.
-Lemma opt_step_31 o ob : opt_step o 31 ob = ('(r, _) <- ds_unmarshal (o_dnssl o) ob ;; Ok (set_dnssl o r))%res.
+Lemma opt_step_31 o ob : opt_step o 31 ob =
+  ('(r, ok) <- ds_unmarshal (o_dnssl o) ob ;; Ok (if ok then add_dnssl (set_dnssl o r) r else set_dnssl o r))%res.
 Proof. reflexivity. Qed.
 Lemma opt_step_other o t ob :
   t <> 1 -> t <> 2 -> t <> 5 -> t <> 3 -> t <> 24 -> t <> 25 -> t <> 31 -> opt_step o t ob = Ok o.
@@ -369,9 +374,9 @@ Definition apply1 (o : new_options) (d : ndopt) : new_options :=
   | OTlla m => set_tlla o m
   | OMtu m => set_mtu o m
   | OPrefix pl on au v p pfx => add_prefix o (mkPI pl on au v p pfx)
-  | ORoute pl prf life pfx => set_ri o (mkRI pl prf life true pfx)
-  | ORdnss life srv => set_rdnss o (mkRD life (rd_servers (o_rdnss o) ++ srv))
-  | ODnssl life names => set_dnssl o (mkDS life names)
+  | ORoute pl prf life pfx => add_route (set_ri o (mkRI pl prf life true pfx)) (mkRI pl prf life true pfx)
+  | ORdnss life srv => add_rdnss (set_rdnss o (mkRD life (rd_servers (o_rdnss o) ++ srv))) (mkRD life srv)
+  | ODnssl life names => add_dnssl (set_dnssl o (mkDS life names)) (mkDS life names)
   | OOther _ => o
   end.
 
@@ -443,7 +448,7 @@ Proof.
     unfold bind. unfold be32_at, at_. cbn [nth Nat.add]. rewrite be32_w32.
     change (r0 :: r1 :: t0 :: t1 :: t2 :: t3 :: addrs) with ([r0; r1; t0; t1; t2; t3] ++ addrs).
     rewrite (rd_servers_chunks _ [r0; r1; t0; t1; t2; t3] addrs).
-    - reflexivity.
+    - cbn [rd_life rd_servers]. rewrite skipn_app_exact by reflexivity. reflexivity.
     - apply N.leb_le in E1. rewrite N.odd_spec in E2. destruct E2 as [k Hk]. subst l.
       replace ((2 * k + 1 - 1) / 2) with k by (replace (2 * k + 1 - 1) with (k * 2) by lia; rewrite N.div_mul; lia).
       lia. }
@@ -556,8 +561,6 @@ Proof.
   destruct d; cbn [dnssls apply1 map]; try reflexivity. rewrite last_cons. reflexivity.
 Qed.
 (* RDNSS: the lifetime of the last option over the servers of all of them *)
-Definition rd_life_of (o : ndopt) : N := match o with ORdnss l _ => l | _ => 0 end.
-Definition rd_srv_of (o : ndopt) : list bytes := match o with ORdnss _ s => s | _ => [] end.
 Lemma fold_rdnss : forall ds o, o_rdnss (fold_left apply1 ds o) =
   mkRD (last (map rd_life_of (rdnsses ds)) (rd_life (o_rdnss o)))
        (rd_servers (o_rdnss o) ++ concat (map rd_srv_of (rdnsses ds))).
@@ -566,7 +569,7 @@ Proof.
   - cbn. rewrite app_nil_r. destruct (o_rdnss o); reflexivity.
   - cbn [fold_left]. rewrite IH.
     destruct d; cbn [rdnsses apply1 map concat]; try reflexivity.
-    cbn [set_rdnss o_rdnss rd_life rd_servers rd_life_of rd_srv_of]. rewrite last_cons, <- app_assoc. reflexivity.
+    cbn [add_rdnss set_rdnss o_rdnss rd_life rd_servers rd_life_of rd_srv_of]. rewrite last_cons, <- app_assoc. reflexivity.
 Qed.
 
 (* ---------------------------------------------------------------- *)
@@ -648,42 +651,25 @@ Proof.
 Qed.
 
 (* ---------------------------------------------------------------- *)
-(* the list-valued options: exact when at most one option of the kind is present *)
+(* the options that may repeat: every one is recorded, in packet order *)
 
-Lemma routes_only ds : Forall (fun o => match o with ORoute _ _ _ _ => True | _ => False end) (routes ds).
-Proof. induction ds as [|d r IH]; [constructor|]. destruct d; cbn [routes]; auto. Qed.
-Lemma rdnsses_only ds : Forall opt_shape ds ->
-  Forall (fun o => match o with ORdnss _ srv => srv <> [] | _ => False end) (rdnsses ds).
-Proof. induction ds as [|d r IH]; intros H; [constructor|]. inversion H; subst. destruct d; cbn [rdnsses]; auto. Qed.
-Lemma dnssls_only ds : Forall opt_shape ds ->
-  Forall (fun o => match o with ODnssl _ nm => nm <> [] | _ => False end) (dnssls ds).
-Proof. induction ds as [|d r IH]; intros H; [constructor|]. inversion H; subst. destruct d; cbn [dnssls]; auto. Qed.
-
-Lemma fold_routes_exact ds : (List.length (routes ds) < 2)%nat ->
-  model_routes (fold_left apply1 ds opts_zero) = map ri_of (routes ds).
+Lemma fold_routes : forall ds o, o_routes (fold_left apply1 ds o) = o_routes o ++ map ri_of (routes ds).
 Proof.
-  intros H. unfold model_routes. rewrite fold_ri. pose proof (routes_only ds) as Ho.
-  destruct (routes ds) as [|x [|y r]]; [reflexivity| |cbn [List.length] in H; lia].
-  inversion Ho; subst. destruct x; try contradiction. reflexivity.
+  induction ds as [|d r IH]; intros o; [cbn; rewrite app_nil_r; reflexivity|]. cbn [fold_left]. rewrite IH.
+  destruct d; cbn [routes apply1 map]; try reflexivity. cbn [add_route o_routes ri_of].
+  rewrite <- app_assoc. reflexivity.
 Qed.
-
-Lemma fold_rdnss_exact ds : Forall opt_shape ds -> (List.length (rdnsses ds) < 2)%nat ->
-  model_rdnss (fold_left apply1 ds opts_zero) = map rd_of (rdnsses ds).
+Lemma fold_rdnss_all : forall ds o, o_rdnss_all (fold_left apply1 ds o) = o_rdnss_all o ++ map rd_of (rdnsses ds).
 Proof.
-  intros Hs H. unfold model_rdnss. rewrite fold_rdnss. pose proof (rdnsses_only ds Hs) as Ho.
-  destruct (rdnsses ds) as [|x [|y r]]; [reflexivity| |cbn [List.length] in H; lia].
-  inversion Ho; subst. destruct x; try contradiction.
-  cbn [map concat rd_srv_of rd_life_of last rd_servers o_rdnss opts_zero app]. rewrite app_nil_r.
-  destruct servers; [congruence|reflexivity].
+  induction ds as [|d r IH]; intros o; [cbn; rewrite app_nil_r; reflexivity|]. cbn [fold_left]. rewrite IH.
+  destruct d; cbn [rdnsses apply1 map]; try reflexivity. cbn [add_rdnss o_rdnss_all rd_of].
+  rewrite <- app_assoc. reflexivity.
 Qed.
-
-Lemma fold_dnssl_exact ds : Forall opt_shape ds -> (List.length (dnssls ds) < 2)%nat ->
-  model_dnssl (fold_left apply1 ds opts_zero) = map ds_of (dnssls ds).
+Lemma fold_dnssl_all : forall ds o, o_dnssl_all (fold_left apply1 ds o) = o_dnssl_all o ++ map ds_of (dnssls ds).
 Proof.
-  intros Hs H. unfold model_dnssl. rewrite fold_dnssl. pose proof (dnssls_only ds Hs) as Ho.
-  destruct (dnssls ds) as [|x [|y r]]; [reflexivity| |cbn [List.length] in H; lia].
-  inversion Ho; subst. destruct x; try contradiction.
-  cbn [map last ds_of ds_names]. destruct names; [congruence|reflexivity].
+  induction ds as [|d r IH]; intros o; [cbn; rewrite app_nil_r; reflexivity|]. cbn [fold_left]. rewrite IH.
+  destruct d; cbn [dnssls apply1 map]; try reflexivity. cbn [add_dnssl o_dnssl_all ds_of].
+  rewrite <- app_assoc. reflexivity.
 Qed.
 
 (* ---------------------------------------------------------------- *)
